@@ -15,6 +15,9 @@
 (*   cc: [props: <<<<name, repr>>>>, items: dict pairs]   authz, wwwauth: [none, type, token, params] *)
 (*   second layer (HeaderCodec2.tla): cachecontrol: [cls, assigns, props: <<<<attr, [k, t]>>>>, items]; basic: auth shape;  *)
 (*   authparam: auth shape + cls; options2231: options shape                                     *)
+(*   op = "vh": like rt, the value built through a history of public mutators (setv: [items, n, members] with extra line  *)
+(*              fields init, muts) or a datetime of some tzinfo kind; clauses VHRaised, VHRoundTrip, VHRedumpRaised,          *)
+(*              VHNormalForm, VHDumpStable.                                                                              *)
 (*   op = "hist": one step of a history with aliasing: v = the value, dumped = its text, parsed = the result of a parse  *)
 (*              call made after earlier parse results (or the value before dumping) were mutated; codecs cookie      *)
 (*              (<<<<key, value>>>>) and accept (<<<<range, q thousandths>>>>) occur only here.  Clauses HistRaised,      *)
@@ -47,6 +50,7 @@ Dom(c, v) ==
     [] c = "basic" -> v.type = BASIC /\ DomAuth("authz", v)
     [] c = "authparam" -> v.cls \in {"authz", "wwwauth"} /\ ~(v.cls = "authz" /\ v.type = BASIC) /\ DomAuth(v.cls, v)
     [] c = "options2231" -> DomOptions(v)
+    [] c = "setv" -> DomList(v.items) /\ \A i \in 1..Len(v.members) : TextOK(v.members[i][1])
     [] c = "cookie" -> \A i \in 1..Len(v) : IsToken(v[i][1]) /\ v[i][2] # <<>> /\ \A k \in 1..Len(v[i][2]) : IsAlnum(v[i][2][k])
     [] c = "accept" -> /\ \A i \in 1..Len(v) : v[i][2] \in 0..1000 /\ v[i][1] # <<>> /\ \A k \in 1..Len(v[i][1]) : v[i][1][k] \in TokenChars \cup {SLASH}
                        /\ \A i \in 1..(Len(v) - 1) : v[i][2] > v[i + 1][2]
@@ -85,6 +89,17 @@ Verdict(r) ==
      ELSE IF r.err2 # "" THEN "RedumpRaised"
      ELSE IF ~Same(c, r.reparsed, r.parsed) THEN "NormalForm"
      ELSE "ok"
+  ELSE IF r.op = "vh" THEN
+     \* the value was built through a history of its public mutators (or, for dates, from a datetime of some tzinfo kind);
+     \* v = the value as its own public reads describe it
+     IF c = "range" /\ ~r.v.none /\ ~Ascending(r.v.ranges, ZERO) THEN "ok"        \* that class is judged by the rt lines
+     ELSE IF ~Dom(c, r.v) THEN "OutOfDomain"
+     ELSE IF r.err # "" THEN "VHRaised"
+     ELSE IF ~Same(c, r.parsed, r.v) THEN "VHRoundTrip"
+     ELSE IF r.err2 # "" THEN "VHRedumpRaised"
+     ELSE IF ~Same(c, r.reparsed, r.parsed) THEN "VHNormalForm"
+     ELSE IF c # "etags" /\ r.redumped # r.dumped THEN "VHDumpStable"            \* dump(parse(dump(v))) = dump(v)
+     ELSE "ok"
   ELSE IF r.op = "hist" THEN
      \* one step of a history with aliasing (see harness/headercodec.py: run_history): v is the value the text `dumped`
      \* was serialised from, parsed what THIS parse call returned after earlier results / the value were mutated
@@ -99,6 +114,9 @@ Verdict(r) ==
 SameAuth(a, b) == a.none = b.none /\ a.type = b.type /\ a.token = b.token /\ a.params = b.params
 CCIntUnmodelled(items) == \E i \in 1..Len(items) : items[i][2] # NONE /\ IntUnmodelled(items[i][2])
 \* the typed layer of a value: the setters produce the dict, the getters read it
+\* a HeaderSet value history: the mutator model produces the items the real object reads back
+SetvOK(r) == SetUnmodelled(r.init) \/ (\E i \in 1..Len(r.muts) : SetUnmodelled(<<r.muts[i].a>> \o r.muts[i].l))
+             \/ HSApply(SetItems(r.init), r.muts) = r.v.items
 CCValueOK(v) == (v.cls = "resp" => CCApply(v.assigns, <<>>) = v.items) /\ (CCIntUnmodelled(v.items) \/ CCView(v.cls, v.items) = v.props)
 MDump(c, v) ==
   CASE c = "quote" -> Quote(v, TRUE)
@@ -145,6 +163,7 @@ DriftOK(r) ==
   LET c == r.codec IN
   IF r.err # "" \/ ~Small(r.dumped) \/ ~Small(r.redumped) THEN TRUE
   ELSE IF r.op = "rt" THEN (c = "etags" \/ r.dumped = MDump(c, r.v)) /\ MParseOK(c, r.dumped, r.parsed) /\ (c = "cachecontrol" => CCValueOK(r.v))
+  ELSE IF r.op = "vh" /\ c = "setv" THEN SetvOK(r)
   ELSE IF r.op = "nf" THEN ~Small(r.v) \/ MParseOK(c, r.v, r.parsed)
   ELSE TRUE
 
